@@ -31,6 +31,18 @@ def build_harness(cmds=("worker",)):
     return BUILD
 
 
+def slot_tags(cfg):
+    """The worker's slot-name -> hash-tag dictionary for a configuration."""
+    d = scratch()
+    try:
+        p = os.path.join(d, "hdr.scen")
+        open(p, "w").write(json.dumps({"cfg": cfg}) + "\n")
+        out = subprocess.run([os.path.join(BUILD, "worker"), "-tags", "-scen", p], capture_output=True, text=True, timeout=60)
+        return json.loads(out.stdout)
+    finally:
+        shutil.rmtree(d, ignore_errors=True)
+
+
 def scratch():
     d = tempfile.mkdtemp(prefix="verif-run-")
     return d
@@ -252,11 +264,17 @@ def chunks(lst, n):
 
 
 def replay_and_validate(cfg, scenarios, workdir, tag, par=None, spec="PropTrace", cfgfile="PropTrace.cfg", consts=None,
-                        binary="worker", events_per_tlc=60000, conform=None):
+                        binary="worker", events_per_tlc=60000, conform=None, group=1):
     """Replays scenarios on the real proxy (several workers in parallel) and validates every trace with TLC
     (few JVMs, many traces each). Returns violations (each with its scenario attached), counts and TLC statistics."""
     par = par or NCPU
-    parts = chunks(scenarios, par) if scenarios else []
+    if group > 1:
+        # keep groups of consecutive scenarios (a baseline and its variants) in one worker
+        ng = (len(scenarios) + group - 1) // group
+        per = max(1, (ng + par - 1) // par) * group
+        parts = [scenarios[i:i + per] for i in range(0, len(scenarios), per)]
+    else:
+        parts = chunks(scenarios, par) if scenarios else []
     res = {"viol": [], "states": 0, "transitions": 0, "traces": 0, "events": 0, "crashes": 0, "dead": 0,
            "unrealised": 0, "harness_errors": []}
 
